@@ -277,7 +277,13 @@ class ArMember(object):
 
         # pylint: disable=unused-private-member
         # pylint 2.11 is very confused here.
-        name = buf[0:16].split(b"/")[0].strip()
+        name = buf[0:16]
+        if b"/" in name:
+            # GNU: a slash ends the name (blanks before it belong to the name)
+            name = name.split(b"/")[0]
+        else:
+            # BSD: the name is padded with blanks
+            name = name.rstrip(b" ")
         f.__name = name.decode(encoding, errors)
         f.__mtime = int(buf[16:28])
         f.__owner = int(buf[28:34])
